@@ -1,6 +1,6 @@
 //go:build verif
 
-//verif:bounds init lemma: memory map of E entries (quick 2, thorough 3) with symbolic address/length/type (sorted, non-overlapping, < 2^52, <= 130 frames + slack each), kernel 1 byte..3 pages page-aligned inside one available entry, 0..2 early allocations made before hand-over
+//verif:bounds init lemma: memory map of E entries (quick 2, thorough 3) with symbolic address/length/type (sorted, non-overlapping, < 2^52, <= 130 frames + slack each), kernel 1 byte..3 pages page-aligned inside one available entry, 0..2 early allocations made before hand-over; init_two_pools: the same lemma on two-entry maps drawn from a menu of concrete layouts (frame counts 40/64/65/100, adjacent or with a 3-page gap, kernel of 1 or 3 pages at the start of either entry)
 //verif:assumes the early allocations made before hand-over succeeded (otherwise boot has already failed); allocator metadata fits in one page (true for <= 3 pools of <= 130 frames)
 //verif:override github.com/ProjectSerenity/firefly/kernel/kfmt.Printf vfNoPrintf
 package pmm
